@@ -10,11 +10,16 @@
   Proved here for every plain object (what decompression / `recompute` / synthesis + insertion leave:
   `plainObj_of_output`, `insert_*`), the three record sections, every stream of choices:
   `walk_delete`, `second_delete`, `emptied_absent`, `still_accepted`.
-  Not covered by a theorem (correspondence only): the very first deletion on a still-compressed object
-  (decompress-then-translate step), the question section (KF1), and the OPT-skipping walk over an
-  additional section that holds an OPT record.
+  The first deletion on an object that still has its parse-time flag (compressed or not) is
+  `first_delete`: decompress, carry the cursor, delete — the result is the plain object of the
+  canonical pieces without the record under the cursor, with a void cursor; from there `walk_delete`
+  applies (before it, the walk over the parsed object is C03's `walks`).  The mechanical composition of
+  the two phases into one statement is not done; nor are the question section (KF1: by design the
+  result is rejected by the parser) and the OPT-skipping walk over an additional section that holds
+  an OPT record (both covered by the exhaustive correspondence walks).
 -/
 import DnsModel.Lemmas.DeleteWalk
+import DnsModel.Lemmas.FirstTouch
 import DnsModel.Theorems.C02
 import DnsModel.Theorems.C05
 namespace Dns.C11
@@ -138,6 +143,21 @@ theorem plain_of_accepted {p : Bytes} {v : View} (h : parse p = .ok v) (pp0 : PP
   obtain ⟨v2, h2⟩ := C05.decompressed_accepted h hu
   obtain ⟨P, e1, e2, e3, _⟩ := plainObj_of_output h o h2 pp0
   exact ⟨L, o, v2, hu, h2, P, e1, e2, e3⟩
+
+/-- **the first deletion on a freshly parsed object** (pointers or not): through a cursor on record `r`
+of a record section, `delete` decompresses, carries the cursor to the record's canonical form and
+removes exactly it: the result is the plain object of the canonical pieces of all other records, in
+order, the cursor is void, question and other header fields are those of the input -/
+theorem first_delete {p : Bytes} {v : View} (h : parse p = .ok v) (L : C03.Layout p) (o : C05.Output p L)
+    (sec : Section) (hs : sec.isRec = true) {l1 l2 : List RecPos} {r : RecPos} {ps1 ps2 : List Bytes} {pc : Bytes}
+    (hl : L.recs sec = l1 ++ r :: l2) (hp : o.pieces sec = ps1 ++ pc :: ps2) (hlen : l1.length = ps1.length)
+    (c : Cursor) (hsec : c.sec = sec) (hoff : c.offset = some r.off) :
+    ∃ (pp' : PP) (P' : PlainObj pp') (c' : Cursor),
+      deleteRR (PP.ofView p v) c = .ok { pp := pp', cur := c', result := none } ∧ c'.offset = none ∧ c'.sec = sec ∧
+      P'.lst sec = ps1 ++ ps2 ∧ (∀ s, s ≠ sec → P'.lst s = o.pieces s) ∧
+      o.qc = (encLabels P'.qls ++ [0]) ++ P'.q4 ∧
+      (∀ k, (k + 1 < sectionCountOffset sec ∨ sectionCountOffset sec + 1 < k) → get16 P'.hdr k = get16 (p.take 12) k) :=
+  delete_fresh (fresh_ofView h) L o sec hs hl hp hlen c hsec hoff
 
 /-- the hypotheses are satisfiable and the machine does what one expects on a small case:
 three records, the first and the third chosen -/
